@@ -22,8 +22,8 @@ def c01(tier):
         runs.append(H("c01_direct", "tsan", 400, "4,4,4,4", timeout_per_case=60, params=dict(maxitems=1200, wl="OBIM")))
     else:
         for t in TOPOS_THOROUGH:
-            runs.append(H("c01_foreach", "plain", 4000, t, timeout_per_case=10))
-            runs.append(H("c01_foreach", "asan", 500, t, timeout_per_case=40, params=dict(maxitems=8000)))
+            runs.append(H("c01_foreach", "plain", 2500, t, timeout_per_case=10))
+            runs.append(H("c01_foreach", "asan", 300, t, timeout_per_case=40, params=dict(maxitems=8000)))
         for cpus in (2, 4):
             runs.append(H("c01_foreach", "plain", 600, "12,12,8", cpus=cpus, timeout_per_case=30,
                           params=dict(oversub=1, maxitems=1500)))
@@ -32,12 +32,12 @@ def c01(tier):
         for t in (None, "4,4,4,4", "3,5"):
             runs.append(H("c01_foreach", "plain", 500, t, timeout_per_case=20, params=dict(wl="OBIM_barrier", maxitems=1500)))
         for t in TOPOS_THOROUGH:
-            runs.append(H("c01_direct", "plain", 12000, t, timeout_per_case=10))
+            runs.append(H("c01_direct", "plain", 3000, t, timeout_per_case=10))
         for cpus in (2, 4):
-            runs.append(H("c01_direct", "plain", 3000, "12,12,8", cpus=cpus, timeout_per_case=20, params=dict(oversub=1)))
-        runs.append(H("c01_direct", "tsan", 2000, "4,4,4,4", timeout_per_case=60))
-        runs.append(H("c01_direct", "tsan", 2000, "3,5", timeout_per_case=60, params=dict(wl="OBIM")))
-        runs.append(H("c01_direct", "asan", 1500, "3,5", timeout_per_case=30))
+            runs.append(H("c01_direct", "plain", 1000, "12,12,8", cpus=cpus, timeout_per_case=20, params=dict(oversub=1)))
+        runs.append(H("c01_direct", "tsan", 800, "4,4,4,4", timeout_per_case=60))
+        runs.append(H("c01_direct", "tsan", 600, "3,5", timeout_per_case=60, params=dict(wl="OBIM")))
+        runs.append(H("c01_direct", "asan", 800, "3,5", timeout_per_case=30))
     return runs
 
 
